@@ -144,6 +144,102 @@ pub fn reuse_history(acc: &mut Acc) {
         }
     }
     acc.count("reuse-history sequences (handle i queried and dropped, handle j parsed at the same address, first query)", n);
+    pair_sequences(acc);
+}
+
+// ---------------------------------------------------------------------------------------------
+// pair sequences on ONE handle: every ordered pair (q1, q2) of a 64-query pool (all query kinds, names that are
+// ambiguous / overloaded / inlined) is issued back to back on one long-lived cache, mapper and mapper-with-index;
+// every answer must be what the query returns on a fresh handle. State a handle keeps from its previous query (a
+// "last class" / "last member range" memo shared between query kinds) is exactly what this is meant to confuse.
+
+const SEQ_MAPPING: &[u8] = b"x.A -> a:\n    void m1() -> m\n    void m2(int) -> m\n    1:2:void f1():5:6 -> f\n    1:2:void g1():7 -> f\n    3:4:void f1():9:10 -> f\n    void only(int) -> o\n    void only(long) -> o\nx.B -> b:\n    void m2() -> m\n    1:2:void h():5:6 -> f\nx.C -> c:\n    void m3() -> m\n    void m3(int) -> m\n    void z() -> o\n";
+const SEQ_KINDS: [&str; 16] = ["class", "method m", "method f", "method o", "frame f:1", "frame f:3", "frame m:0", "params m()", "params m(int)", "params o(int)", "params o(long)", "params f()", "throwable", "signature", "trace", "typed trace"];
+
+fn seq_query(s: &dyn Subj, class: &str, kind: usize) -> String {
+    let frame = |m: &'static str, line: usize, params: Option<&'static str>| {
+        let mut out: Vec<Fr<'_>> = Vec::new();
+        s.remap_frame(class, m, line, if params.is_some() { None } else { Some("F.java") }, params, &mut out);
+        format!("{:?}", out)
+    };
+    match kind {
+        0 => format!("{:?}", s.remap_class(class)),
+        1 => format!("{:?}", s.remap_method(class, "m")),
+        2 => format!("{:?}", s.remap_method(class, "f")),
+        3 => format!("{:?}", s.remap_method(class, "o")),
+        4 => frame("f", 1, None),
+        5 => frame("f", 3, None),
+        6 => frame("m", 0, None),
+        7 => frame("m", 0, Some("")),
+        8 => frame("m", 0, Some("int")),
+        9 => frame("o", 0, Some("int")),
+        10 => frame("o", 0, Some("long")),
+        11 => frame("f", 0, Some("")),
+        12 => format!("{:?}", s.remap_throwable(class, Some("boom"))),
+        13 => format!("{:?}", s.deobfuscate_signature(&format!("(L{};[La;I)L{};", class, class))),
+        14 => format!("{:?}", s.remap_stacktrace(&format!("{}: boom\n    at {}.f(F.java:2)\n    at a.m(F.java:1)\n", class, class))),
+        _ => format!("{:?}", s.remap_typed_text(&format!("{}: boom\n    at {}.f(F.java:3)\n    at {}.o(F.java:1)\n", class, class, class)).map(|x| x.2)),
+    }
+}
+
+pub fn pair_sequences(acc: &mut Acc) {
+    let nq = CLASSES.len() * SEQ_KINDS.len();
+    let q_of = |q: usize| (CLASSES[q / SEQ_KINDS.len()], q % SEQ_KINDS.len());
+    let mut abuf = Aligned::new(&[]);
+    let r = guarded(|| {
+        let mut found: Vec<(String, String)> = Vec::new();
+        let mut steps = 0u64;
+        // expected: every query on a handle of its own
+        let mut expected: Vec<Vec<String>> = vec![Vec::new(); 3];
+        for q in 0..nq {
+            let (c, k) = q_of(q);
+            let mut ab2 = Aligned::new(&[]);
+            let _ = cur::with_subjects(SEQ_MAPPING, &mut ab2, |m, mp, ca, _| {
+                let subs: [&dyn Subj; 3] = [m, mp, ca];
+                for (si, s) in subs.iter().enumerate() {
+                    expected[si].push(seq_query(*s, c, k));
+                }
+            });
+        }
+        let _ = cur::with_subjects(SEQ_MAPPING, &mut abuf, |m, mp, ca, _| {
+            let subs: [(&str, &dyn Subj); 3] = [("mapper", m), ("mapper-index", mp), ("cache", ca)];
+            for (si, (label, s)) in subs.iter().enumerate() {
+                // the by-params kinds are not asked of the mapper built without the index (outside C03's statement)
+                let skip = |k: usize| si == 0 && (7..=11).contains(&k);
+                for round in 0..2 {
+                    for q1 in 0..nq {
+                        for q2 in 0..nq {
+                            let ((c1, k1), (c2, k2)) = (q_of(q1), q_of(q2));
+                            if skip(k1) || skip(k2) {
+                                continue;
+                            }
+                            steps += 2;
+                            let a1 = seq_query(*s, c1, k1);
+                            let a2 = seq_query(*s, c2, k2);
+                            for (q, c, k, a, prev) in [(q1, c1, k1, &a1, None), (q2, c2, k2, &a2, Some((c1, k1)))] {
+                                if *a != expected[si][q] && found.len() < 8 && !found.iter().any(|(sg, _)| *sg == format!("sequence:{}:{}", label, SEQ_KINDS[k].split(' ').next().unwrap_or(""))) {
+                                    found.push((format!("sequence:{}:{}", label, SEQ_KINDS[k].split(' ').next().unwrap_or("")), format!("one long-lived {} handle (round {}): query '{}' of class {:?}{} answered {} - on a handle of its own it answers {}", label, round, SEQ_KINDS[k], c, match prev { Some((pc, pk)) => format!(" directly after '{}' of class {:?}", SEQ_KINDS[pk], pc), None => String::new() }, a, expected[si][q])));
+                                }
+                            }
+                        }
+                    }
+                }
+            }
+        });
+        (found, steps)
+    });
+    match r {
+        Ok((found, steps)) => {
+            acc.states += steps / 2;
+            acc.transitions += steps;
+            acc.observations += steps;
+            acc.count("pair sequences on one handle (q1 then q2, both compared with a handle of their own)", steps / 2);
+            for (sig, d) in found {
+                acc.violation(sig, 2, || (d.clone(), json!({"kind":"reuse-history","pass":"pair-sequences"})));
+            }
+        }
+        Err(p) => acc.violation(format!("sequence:panic:{}", panic_site(&p)), 2, || (format!("panic in the pair-sequence pass: {}", p), json!({"kind":"reuse-history","pass":"pair-sequences"}))),
+    }
 }
 
 /// Re-execution: the whole pass in its fixed order (state a subject keeps per thread may have been built up by the
